@@ -131,7 +131,7 @@ class Engine(GenericConcreteEngine[Callable[..., Any]]):
                     return tree, commutator.done, commutator.messages
                 else:
                     upstream, done, messages = self.backtrack_unary(commutator.first, target, preferred)
-                    if upstream is not target or commutator.second is not tree.operation:
+                    if upstream is not target or (done and commutator.second is not tree.operation):
                         result = commutator.second._finish_apply(upstream)
                     else:
                         result = tree
